@@ -9,8 +9,11 @@ package record_test
 
 import (
 	"bytes"
+	"crypto/elliptic"
 	"crypto/sha256"
+	"encoding/asn1"
 	"encoding/json"
+	"math/big"
 	"fmt"
 	"path/filepath"
 	"strings"
@@ -21,6 +24,7 @@ import (
 	"github.com/libp2p/go-libp2p/core/peer"
 	"github.com/libp2p/go-libp2p/internal/vfh"
 
+	"github.com/decred/dcrd/dcrec/secp256k1/v4"
 	"github.com/ipfs/go-cid"
 	ma "github.com/multiformats/go-multiaddr"
 	mh "github.com/multiformats/go-multihash"
@@ -303,6 +307,28 @@ func (c *vfC08C) checkIDFunction(pub crypto.PubKey, id peer.ID, where string) (e
 	return embedded
 }
 
+func vfC08NegateS(kt string, sig []byte) []byte {
+	var n *big.Int
+	switch kt {
+	case "ECDSA":
+		n = elliptic.P256().Params().N
+	case "Secp256k1":
+		n = secp256k1.S256().N
+	default:
+		return nil
+	}
+	var rs struct{ R, S *big.Int }
+	if rest, err := asn1.Unmarshal(sig, &rs); err != nil || len(rest) != 0 {
+		return nil
+	}
+	rs.S = new(big.Int).Sub(n, rs.S)
+	out, err := asn1.Marshal(rs)
+	if err != nil {
+		return nil
+	}
+	return out
+}
+
 func vfC08BitFlips(b []byte, allBits bool, rnd interface{ Intn(int) int }, f func(m []byte, what string)) {
 	for i := range b {
 		for bit := 0; bit < 8; bit++ {
@@ -407,6 +433,15 @@ func vfC08RunC(res *vfh.Result, cnt *vfC08Counters, w vfh.Walk, rsaName string, 
 					bad = append(bad, m)
 				}
 			})
+			// the classic (r, s) -> (r, n-s) re-encoding of ECDSA signatures
+			if alt := vfC08NegateS(nx.Sig.Kt, c.sigOrig); alt != nil {
+				if ok, _ := signer.Verify(msg, alt); ok {
+					cnt.inc("C.sig-malleable."+nx.Sig.Kt+".negate-s", 1)
+					c.mismatch("L2:signature-encoding-malleable:"+nx.Sig.Kt, "the signature (r, n-s) verifies for the same key and message", false, true)
+				} else {
+					cnt.inc("C.sig-negate-s-rejected."+nx.Sig.Kt, 1)
+				}
+			}
 			if len(bad) == 0 {
 				panic("vfC08: no invalid signature mutation found")
 			}
@@ -584,7 +619,13 @@ func (c *vfC08C) mutform(st vfC08CState, rnd interface{ Intn(int) int }) {
 				c.mismatch("id-matches-wrong:"+st.Kt, "a mutated text ID matches the owner's key", false, true)
 			}
 			if back, err := peer.Decode(id2.String()); err != nil || back != id2 {
-				c.mismatch("roundtrip-not-identity:Decode:mutated", fmt.Sprintf("ID decoded from %q does not round-trip through String()", m), nil, nil)
+				// only identity and sha2-256 multihashes are IDs of keys; an ID with another hash function
+				// (reachable by decoding a CID) is outside the statement
+				cls := "L2:foreign-multihash-id-text-form-not-decodable"
+				if dec, derr := mh.Decode([]byte(id2)); derr == nil && (dec.Code == mh.IDENTITY || (dec.Code == mh.SHA2_256 && dec.Length == 32)) {
+					cls = "roundtrip-not-identity:Decode:mutated"
+				}
+				c.mismatch(cls, fmt.Sprintf("ID decoded from %q does not round-trip through String()", m), nil, nil)
 			}
 		}
 		for i := 0; i < len(s); i++ {
